@@ -124,11 +124,13 @@ loop:
 		select {
 		case err := <-b.lc.ShutdownRequest():
 			b.lc.ShutdownInitiated(err)
+			b.vt("stop")
 			break loop
 
 		case outch <- curev:
 			// Event was emitted. Shrink current event buffer.
 			b.evbuf = b.evbuf[1:]
+			b.vt("emit", "ev", curev)
 
 		case ev := <-b.pubch:
 			// publish event
@@ -137,6 +139,7 @@ loop:
 			if b.eventch != nil {
 				b.evbuf = append(b.evbuf, ev)
 			}
+			b.vt("recv", "ev", ev)
 
 			// Publish to children.
 			for sub := range b.subscriptions {
@@ -144,18 +147,21 @@ loop:
 					panic(err)
 				}
 			}
+			b.vt("fwdone", "ev", ev)
 
 		case ch := <-b.subch:
 			// new subscription
 
 			sub := newSubscriber(b)
 			b.subscriptions[sub] = true
+			b.vt("sub", "child", sub)
 
 			ch <- sub
 
 		case sub := <-b.unsubch:
 			// subscription closed
 			delete(b.subscriptions, sub)
+			b.vt("unsub", "child", sub)
 		}
 	}
 
@@ -166,11 +172,13 @@ loop:
 	for len(b.subscriptions) > 0 {
 		sub := <-b.unsubch
 		delete(b.subscriptions, sub)
+		b.vt("unsub", "child", sub)
 	}
 
 	if b.parentch != nil {
 		b.parentch <- b
 	}
+	b.vt("done")
 }
 
 func newSubscriber(parent *bus) *bus {
